@@ -16,6 +16,11 @@ Facts (all read from the *statement order* inside one function body, comments st
   createResizesExisting          MappedFile::Create: an existing file is resized in place (old bytes stay)
   allocateZeroes                 MappedFile::Allocate memsets what it hands out (the metadata block is zeroed first)
   yamlSavedInPlace               ConfigData::SaveToFile opens the destination itself with std::ofstream (no temp + rename)
+  timestampBits                  (C12) how `__build_info/timestamps/<rid>` holds the mtime of a source: 32 = BuildInfoPlugin writes
+                                 `(int)to_time_t(..)` and ConfigNeedsUpdate reads it with GetInt and compares with `(int)to_time_t(..)`;
+                                 64 = written as the decimal text of `static_cast<long long>(to_time_t(..))`, read with std::stoll
+                                 (whole string) and compared with the same uncast value; 0 = writer and reader are neither, or not
+                                 the same (reported in "unknown_c12"; C12.timestamp_width_known then fails to build)
 A shape the translator does not understand is reported in "unknown" and the constant is emitted as the value that makes
 the dependent theorem fail to build (fail closed).
 """
@@ -143,6 +148,40 @@ def main():
             unknown.append("yamlSavedInPlace")
             facts["yamlSavedInPlace"] = True
 
+    # ---- C12: width of the recorded source timestamps (writer and reader must agree)
+    unknown_c12 = []
+    bi = rd("src/rime/config/build_info_plugin.cc")
+    b = body_of(bi, r"bool\s+BuildInfoPlugin::ReviewLinkOutput\s*\(")
+    wbits = 0
+    if b:
+        stores = re.findall(r"timestamps\s*\[\s*resource->resource_id\s*\]\s*=\s*([^;]*);", b)
+        timed = [re.sub(r"\s+", "", e) for e in stores if "to_time_t" in e or "last_write_time" in e]
+        rest = [re.sub(r"\s+", "", e) for e in stores if not ("to_time_t" in e or "last_write_time" in e)]
+        if len(timed) == 1 and all(e == "0" for e in rest):
+            e = timed[0]
+            if re.fullmatch(r"\(int\)filesystem::to_time_t\(std::filesystem::last_write_time\(file_path\)\)", e):
+                wbits = 32
+            elif re.fullmatch(r"std::to_string\(static_cast<longlong>\(filesystem::to_time_t\(std::filesystem::last_write_time\(file_path\)\)\)\)", e):
+                wbits = 64
+    dt = rd("src/rime/lever/deployment_tasks.cc")
+    b = body_of(dt, r"static\s+bool\s+ConfigNeedsUpdate\s*\(")
+    rbits = 0
+    if b:
+        flat = re.sub(r"\s+", "", b)
+        if ("intrecorded_time=0;" in flat and "value->GetInt(&recorded_time)" in flat
+                and "recorded_time!=(int)filesystem::to_time_t(fs::last_write_time(source_file))" in flat):
+            rbits = 32
+        elif ("longlongrecorded_time=0;" in flat and "ParseTimestamp(value->str(),&recorded_time)" in flat
+                and "recorded_time!=static_cast<longlong>(filesystem::to_time_t(fs::last_write_time(source_file)))" in flat):
+            pb = body_of(dt, r"static\s+bool\s+ParseTimestamp\s*\(")
+            pf = re.sub(r"\s+", "", pb or "")
+            if "*value=std::stoll(str,&pos);" in pf and "returnpos==str.length();" in pf and "catch(...){returnfalse;}" in pf:
+                rbits = 64
+    facts["timestampBits"] = wbits if (wbits == rbits and wbits) else 0
+    facts["timestampWriterBits"], facts["timestampReaderBits"] = wbits, rbits
+    if not facts["timestampBits"]:
+        unknown_c12.append("timestampBits (writer %s, reader %s)" % (wbits or "?", rbits or "?"))
+
     order = ["packLoopDropsSyllabaryOnSkip", "tableTagLast", "prismTagLast", "reverseTagLast", "tableRemovedFirst",
              "prismRemovedFirst", "reverseRemovedFirst", "tableLoadTestsTag", "prismLoadTestsTag", "reverseLoadTestsTag",
              "createResizesExisting", "allocateZeroes", "yamlSavedInPlace"]
@@ -150,12 +189,22 @@ def main():
              "namespace RimeModel.Gen.DeployFacts", ""]
     for k in order:
         lines.append("def %s : Bool := %s" % (k, "true" if facts[k] else "false"))
+    lines.append("def timestampBits : Nat := %d" % facts["timestampBits"])
     lines += ["", "end RimeModel.Gen.DeployFacts", ""]
     genlib.write_if_changed(out, "\n".join(lines))
     # independent count: number of format-tag stores in the three builders
     indep = sum(len(re.findall(r"strncpy\s*\(\s*metadata_?->format", rd(p))) for p in
                 ("src/rime/dict/table.cc", "src/rime/dict/prism.cc", "src/rime/dict/reverse_lookup_dictionary.cc"))
-    print(json.dumps({"facts": facts, "unknown": unknown, "count": len(order), "independent_tag_store_count": indep}))
+    # independent look at the same two places: any 32-bit cast / parse left next to a time?
+    indep_ts = {"writer_casts_int": len(re.findall(r"\(int\)\s*filesystem::to_time_t", bi)),
+                "reader_casts_int": len(re.findall(r"\(int\)\s*filesystem::to_time_t", dt)),
+                "reader_getint_recorded": len(re.findall(r"GetInt\s*\(\s*&recorded_time", dt))}
+    if facts["timestampBits"] == 64 and any(indep_ts.values()):
+        facts["timestampBits"] = 0
+        unknown_c12.append("timestampBits: 64-bit shape recognised but an (int) cast of a time is still there %s" % indep_ts)
+        genlib.write_if_changed(out, "\n".join(lines).replace("def timestampBits : Nat := 64", "def timestampBits : Nat := 0"))
+    print(json.dumps({"facts": facts, "unknown": unknown, "unknown_c12": unknown_c12, "count": len(order) + 1,
+                      "independent_tag_store_count": indep, "independent_timestamp_casts": indep_ts}))
 
 
 if __name__ == "__main__":
